@@ -341,6 +341,11 @@ type ReadOut struct {
 	PErr   string      `json:"perr"`  // "" or what went wrong while following cursors (next:/previous:/full: + class, endless)
 	Prevs  []PrevProbe `json:"prevs"` // prevs[k]: the page reached by `previous` from pages[k+1], and by `next` from there
 	PrevOK bool        `json:"prevChecked"`
+	// listings of 3..8 pages: back[h] = the page reached by the h-th consecutive `previous` hop from the last page; the
+	// last element also carries the page reached by `next` from there; backEnd: the walk ended on a page without `previous`
+	Back    []PrevProbe `json:"back"`
+	BackOK  bool        `json:"backChecked"`
+	BackEnd bool        `json:"backEnd"`
 	Full   []any       `json:"full"`   // the same query in ONE page (pageSize 100): the reference enumeration for pagination
 	FullOK bool        `json:"fullOK"` // full was requested and answered
 	Base   []any       `json:"base"`   // filtered aggregated balances only: the same read without the filter
@@ -763,7 +768,7 @@ func baseRes(q ReadQ) string {
 
 // ExecRead issues the read (all its pages, the previous-cursor probes and the count) and projects it.
 func (e *Env) ExecRead(l string, q ReadQ) (ReadOut, error) {
-	out := ReadOut{Pages: []Page{}, Prevs: []PrevProbe{}, Full: []any{}, Base: []any{}, Count: -1}
+	out := ReadOut{Pages: []Page{}, Prevs: []PrevProbe{}, Back: []PrevProbe{}, Full: []any{}, Base: []any{}, Count: -1}
 	e.PG.TakeNotes()
 	defer func() {
 		for _, n := range e.PG.TakeNotes() {
@@ -887,6 +892,43 @@ func (e *Env) ExecRead(l string, q ReadQ) (ReadOut, error) {
 			}
 			out.Prevs = append(out.Prevs, pr)
 		}
+	}
+	// the walk back: from the last page follow `previous` hop after hop down to the first page (a cursor built BY a
+	// previous page is only exercised from the second hop on), then `next` once from there
+	if n := len(out.Pages); n >= 3 && n <= 8 {
+		out.BackOK = true
+		cur := out.Pages[n-1].prev
+		for hop := 1; hop < n+3 && cur != ""; hop++ {
+			pp, st, msg, err := do(e.followRequest(l, q, first, cur))
+			if err != nil {
+				return out, err
+			}
+			if pp == nil {
+				out.PErr, out.Msg = "walk-back:"+st, msg
+				if st == "inexact" {
+					out.Status = "inexact"
+				}
+				return out, nil
+			}
+			pr := PrevProbe{Has: true, Items: pp.Items, NItems: []any{}}
+			cur = pp.prev
+			if cur == "" && pp.next != "" {
+				pn, st, msg, err := do(e.followRequest(l, q, first, pp.next))
+				if err != nil {
+					return out, err
+				}
+				if pn == nil {
+					out.PErr, out.Msg = "walk-back-next:"+st, msg
+					if st == "inexact" {
+						out.Status = "inexact"
+					}
+					return out, nil
+				}
+				pr.HasNext, pr.NItems = true, pn.Items
+			}
+			out.Back = append(out.Back, pr)
+		}
+		out.BackEnd = cur == ""
 	}
 	if !q.IsTpl && (q.Res == "volumes" || q.Res == "accounts" || q.Res == "transactions" || q.Res == "logs") {
 		q1 := q
